@@ -5,6 +5,7 @@ package main
 import (
 	"fmt"
 	"math/big"
+	"reflect"
 	"strings"
 
 	"github.com/llir/llvm/asm"
@@ -94,7 +95,8 @@ func canonicalID(s string) bool {
 
 // c11Class names the known-finding class a failing (position, name) belongs to, or "".
 func c11Class(pos, name string) string {
-	sigil := pos == "global" || pos == "func" || pos == "param" || pos == "result" || pos == "block"
+	sigil := pos == "global" || pos == "func" || pos == "param" || pos == "result" || pos == "block" ||
+		pos == "alias" || pos == "ifunc" || pos == "callee" || pos == "blockaddress"
 	switch {
 	case name == "" && pos == "metadata":
 		return "empty_metadata_name"
@@ -360,7 +362,9 @@ func c11StringPositions() []c11Pos {
 			m := ir.NewModule()
 			m.MetadataDefs = append(m.MetadataDefs, &metadata.Tuple{MetadataID: -1, Fields: []metadata.Field{&metadata.String{Value: s}}})
 			return m
-		}, func(m *ir.Module) string { return m.MetadataDefs[0].(*metadata.Tuple).Fields[0].(*metadata.String).Value }},
+		}, func(m *ir.Module) string {
+			return m.MetadataDefs[0].(*metadata.Tuple).Fields[0].(*metadata.String).Value
+		}},
 		{"char_array", func(s string) *ir.Module {
 			m := ir.NewModule()
 			m.NewGlobalDef("g", constant.NewCharArray([]byte(s)))
@@ -379,7 +383,9 @@ func c11StringPositions() []c11Pos {
 			b.NewCall(ir.NewInlineAsm(types.NewPointer(types.NewFunc(types.Void)), s, "~{memory}"))
 			b.NewRet(nil)
 			return m
-		}, func(m *ir.Module) string { return m.Funcs[0].Blocks[0].Insts[0].(*ir.InstCall).Callee.(*ir.InlineAsm).Asm }},
+		}, func(m *ir.Module) string {
+			return m.Funcs[0].Blocks[0].Insts[0].(*ir.InstCall).Callee.(*ir.InlineAsm).Asm
+		}},
 	}
 }
 
@@ -417,13 +423,22 @@ func c11RoundTrip(c *config, p c11Pos, name string, isName bool) {
 		o.Fail("name_round_trip", cls, stage+" "+oc.String(), det)
 	case back != name:
 		o.Fail("name_round_trip", cls, "decoded bytes differ", det)
-	case text2 != text:
+	case text2 != text && !strings.HasPrefix(p.name, "di."):
+		// (for the reflective debug-info positions the companions set to null are dropped by the parser, which
+		// is not about the string; only the decoded bytes are compared there)
 		o.Fail("name_round_trip", cls, "second print differs", det)
 	default:
 		o.Pass("name_round_trip")
 		if isName {
 			// correspondence for the decoders: the token the printer wrote, what the parser made of it
-			o.Case("decode_"+p.name, []string{hx(name)}, []string{"Name " + hx(back)})
+			kind := p.name
+			switch kind {
+			case "alias", "ifunc", "callee":
+				kind = "global"
+			case "blockaddress":
+				kind = "block"
+			}
+			o.Case("decode_"+kind, []string{hx(name)}, []string{"Name " + hx(back)})
 		}
 	}
 }
@@ -432,11 +447,29 @@ func runC11(c *config) {
 	o := c.out
 	r := newRng(c.seed, "c11")
 	poss, sposs := c11Positions(), c11StringPositions()
+	poss = append(poss, c11MorePositions()...)
+	sposs = append(sposs, c11MoreStringPositions()...)
+	// reflective debug-info string fields: keep those on which a benign probe survives print and parse
+	var dposs []c11Pos
+	for _, p := range c11DIStringPositions() {
+		ok := false
+		guard(func() error {
+			m2, err := asm.ParseString("probe.ll", p.build("probe value").String())
+			ok = err == nil && p.read(m2) == "probe value"
+			return nil
+		})
+		if ok {
+			dposs = append(dposs, p)
+			o.Stat("di_string_fields.covered")
+		} else {
+			o.Stat("di_string_fields.skipped:" + p.name)
+		}
+	}
 	if c.replay != "" {
 		rp := readReplay(c.replay)
 		name := unhx(rp.Detail["name"].(string))
 		pos, _ := rp.Detail["position"].(string)
-		for _, p := range append(poss, sposs...) {
+		for _, p := range append(append(poss, sposs...), dposs...) {
 			if p.name == pos {
 				c11RoundTrip(c, p, name, true)
 			}
@@ -493,6 +526,16 @@ func runC11(c *config) {
 			c11RoundTrip(c, p, s, false)
 		}
 	}
+	for i, n := range names {
+		if strings.IndexByte(n, 0) >= 0 {
+			continue
+		}
+		for j, p := range dposs {
+			if (i+j)%4 == 0 || c.tier == "thorough" {
+				c11RoundTrip(c, p, n, false)
+			}
+		}
+	}
 	// a name is never mistaken for an ID: unnamed and "numerically named" globals side by side
 	for _, n := range []string{"0", "1", "42"} {
 		m := ir.NewModule()
@@ -506,4 +549,276 @@ func runC11(c *config) {
 			o.Pass("name_vs_id")
 		}
 	}
+}
+
+// ---- further string positions: every place where the printers call quote()
+
+func c11FuncWith(set func(f *ir.Func)) func(string) *ir.Module {
+	return func(s string) *ir.Module {
+		m := ir.NewModule()
+		f := m.NewFunc("f", types.Void)
+		b := f.NewBlock("entry")
+		b.NewRet(nil)
+		set(f)
+		return m
+	}
+}
+
+func c11MoreStringPositions() []c11Pos {
+	aliasMod := func(set func(m *ir.Module, g *ir.Global)) *ir.Module {
+		m := ir.NewModule()
+		g := m.NewGlobalDef("g", constant.NewInt(i32, 1))
+		set(m, g)
+		return m
+	}
+	resolverMod := func() (*ir.Module, *ir.Func) {
+		m := ir.NewModule()
+		res := m.NewFunc("res", types.NewPointer(types.NewFunc(types.Void)))
+		b := res.NewBlock("entry")
+		b.NewRet(constant.NewNull(types.NewPointer(types.NewFunc(types.Void))))
+		return m, res
+	}
+	memMod := func(build func(b *ir.Block, p *ir.Param)) *ir.Module {
+		m := ir.NewModule()
+		f := m.NewFunc("f", types.Void, ir.NewParam("p", types.NewPointer(i32)))
+		b := f.NewBlock("entry")
+		build(b, f.Params[0])
+		b.NewRet(nil)
+		return m
+	}
+	inst0 := func(m *ir.Module) ir.Instruction { return m.Funcs[0].Blocks[0].Insts[0] }
+	return []c11Pos{
+		{"func_section", func(s string) *ir.Module {
+			m := ir.NewModule()
+			m.NewFunc("f", types.Void).Section = s
+			return m
+		}, func(m *ir.Module) string { return m.Funcs[0].Section }},
+		{"func_partition", func(s string) *ir.Module {
+			m := ir.NewModule()
+			m.NewFunc("f", types.Void).Partition = s
+			return m
+		}, func(m *ir.Module) string { return m.Funcs[0].Partition }},
+		{"alias_partition", func(s string) *ir.Module {
+			return aliasMod(func(m *ir.Module, g *ir.Global) { m.NewAlias("a", g).Partition = s })
+		}, func(m *ir.Module) string { return m.Aliases[0].Partition }},
+		{"ifunc_partition", func(s string) *ir.Module {
+			m, res := resolverMod()
+			m.NewIFunc("i", res).Partition = s
+			return m
+		}, func(m *ir.Module) string { return m.IFuncs[0].Partition }},
+		{"datalayout", func(s string) *ir.Module {
+			m := ir.NewModule()
+			m.DataLayout = s
+			return m
+		}, func(m *ir.Module) string { return m.DataLayout }},
+		{"target_triple", func(s string) *ir.Module {
+			m := ir.NewModule()
+			m.TargetTriple = s
+			return m
+		}, func(m *ir.Module) string { return m.TargetTriple }},
+		{"syncscope_fence", func(s string) *ir.Module {
+			return memMod(func(b *ir.Block, p *ir.Param) {
+				b.NewFence(enum.AtomicOrderingSequentiallyConsistent).SyncScope = s
+			})
+		}, func(m *ir.Module) string { return inst0(m).(*ir.InstFence).SyncScope }},
+		{"syncscope_load", func(s string) *ir.Module {
+			return memMod(func(b *ir.Block, p *ir.Param) {
+				l := b.NewLoad(i32, p)
+				l.Atomic, l.Ordering, l.Align, l.SyncScope = true, enum.AtomicOrderingAcquire, ir.Align(4), s
+			})
+		}, func(m *ir.Module) string { return inst0(m).(*ir.InstLoad).SyncScope }},
+		{"syncscope_store", func(s string) *ir.Module {
+			return memMod(func(b *ir.Block, p *ir.Param) {
+				l := b.NewStore(constant.NewInt(i32, 1), p)
+				l.Atomic, l.Ordering, l.Align, l.SyncScope = true, enum.AtomicOrderingRelease, ir.Align(4), s
+			})
+		}, func(m *ir.Module) string { return inst0(m).(*ir.InstStore).SyncScope }},
+		{"syncscope_cmpxchg", func(s string) *ir.Module {
+			return memMod(func(b *ir.Block, p *ir.Param) {
+				b.NewCmpXchg(p, constant.NewInt(i32, 1), constant.NewInt(i32, 2), enum.AtomicOrderingSequentiallyConsistent, enum.AtomicOrderingSequentiallyConsistent).SyncScope = s
+			})
+		}, func(m *ir.Module) string { return inst0(m).(*ir.InstCmpXchg).SyncScope }},
+		{"syncscope_atomicrmw", func(s string) *ir.Module {
+			return memMod(func(b *ir.Block, p *ir.Param) {
+				b.NewAtomicRMW(enum.AtomicOpAdd, p, constant.NewInt(i32, 1), enum.AtomicOrderingSequentiallyConsistent).SyncScope = s
+			})
+		}, func(m *ir.Module) string { return inst0(m).(*ir.InstAtomicRMW).SyncScope }},
+		{"inline_asm_constraint", func(s string) *ir.Module {
+			return memMod(func(b *ir.Block, p *ir.Param) {
+				b.NewCall(ir.NewInlineAsm(types.NewPointer(types.NewFunc(types.Void)), "nop", s))
+			})
+		}, func(m *ir.Module) string { return inst0(m).(*ir.InstCall).Callee.(*ir.InlineAsm).Constraint }},
+		{"bundle_tag_call", func(s string) *ir.Module {
+			m := ir.NewModule()
+			g := m.NewFunc("g", types.Void)
+			f := m.NewFunc("f", types.Void)
+			b := f.NewBlock("entry")
+			b.NewCall(g).OperandBundles = []*ir.OperandBundle{ir.NewOperandBundle(s, constant.NewInt(i32, 1))}
+			b.NewRet(nil)
+			return m
+		}, func(m *ir.Module) string {
+			return m.Funcs[1].Blocks[0].Insts[0].(*ir.InstCall).OperandBundles[0].Tag
+		}},
+		{"bundle_tag_invoke", func(s string) *ir.Module {
+			m := ir.NewModule()
+			g := m.NewFunc("g", types.Void)
+			f := m.NewFunc("f", types.Void)
+			b := f.NewBlock("entry")
+			n := f.NewBlock("n")
+			e := f.NewBlock("e")
+			b.NewInvoke(g, nil, n, e).OperandBundles = []*ir.OperandBundle{ir.NewOperandBundle(s)}
+			n.NewRet(nil)
+			e.NewUnreachable()
+			return m
+		}, func(m *ir.Module) string {
+			return m.Funcs[1].Blocks[0].Term.(*ir.TermInvoke).OperandBundles[0].Tag
+		}},
+		{"attr_key", func(s string) *ir.Module {
+			return c11FuncWith(func(f *ir.Func) { f.FuncAttrs = append(f.FuncAttrs, ir.AttrPair{Key: s, Value: "v"}) })("")
+		}, func(m *ir.Module) string { return m.Funcs[0].FuncAttrs[0].(ir.AttrPair).Key }},
+		{"attr_string", func(s string) *ir.Module {
+			return c11FuncWith(func(f *ir.Func) { f.FuncAttrs = append(f.FuncAttrs, ir.AttrString(s)) })("")
+		}, func(m *ir.Module) string { return string(m.Funcs[0].FuncAttrs[0].(ir.AttrString)) }},
+		{"param_attr_string", func(s string) *ir.Module {
+			m := ir.NewModule()
+			p := ir.NewParam("x", i32)
+			p.Attrs = append(p.Attrs, ir.AttrPair{Key: "k", Value: s})
+			m.NewFunc("f", types.Void, p)
+			return m
+		}, func(m *ir.Module) string { return m.Funcs[0].Params[0].Attrs[0].(ir.AttrPair).Value }},
+		{"attrgroup_string", func(s string) *ir.Module {
+			m := ir.NewModule()
+			ag := &ir.AttrGroupDef{ID: 0, FuncAttrs: []ir.FuncAttribute{ir.AttrPair{Key: "k", Value: s}}}
+			m.AttrGroupDefs = append(m.AttrGroupDefs, ag)
+			f := m.NewFunc("f", types.Void)
+			f.FuncAttrs = append(f.FuncAttrs, ag)
+			return m
+		}, func(m *ir.Module) string { return m.AttrGroupDefs[0].FuncAttrs[0].(ir.AttrPair).Value }},
+		{"global_attr_string", func(s string) *ir.Module {
+			m := ir.NewModule()
+			g := m.NewGlobalDef("g", constant.NewInt(i32, 1))
+			g.FuncAttrs = append(g.FuncAttrs, ir.AttrPair{Key: "k", Value: s})
+			return m
+		}, func(m *ir.Module) string {
+			if len(m.Globals[0].FuncAttrs) == 0 {
+				return "\x00no attribute"
+			}
+			switch a := m.Globals[0].FuncAttrs[0].(type) {
+			case ir.AttrPair:
+				return a.Value
+			case *ir.AttrGroupDef:
+				return a.FuncAttrs[0].(ir.AttrPair).Value
+			}
+			return "\x00unexpected attribute kind"
+		}},
+	}
+}
+
+// identifier positions beyond the nine of c11Positions: alias and ifunc names, a callee, a blockaddress label
+func c11MorePositions() []c11Pos {
+	return []c11Pos{
+		{"alias", func(n string) *ir.Module {
+			m := ir.NewModule()
+			g := m.NewGlobalDef("g", constant.NewInt(i32, 1))
+			m.NewAlias(n, g)
+			return m
+		}, func(m *ir.Module) string {
+			if m.Aliases[0].Aliasee != m.Globals[0] {
+				return "\x00aliasee not bound"
+			}
+			return m.Aliases[0].GlobalName
+		}},
+		{"ifunc", func(n string) *ir.Module {
+			m := ir.NewModule()
+			res := m.NewFunc("res", types.NewPointer(types.NewFunc(types.Void)))
+			b := res.NewBlock("entry")
+			b.NewRet(constant.NewNull(types.NewPointer(types.NewFunc(types.Void))))
+			m.NewIFunc(n, res)
+			return m
+		}, func(m *ir.Module) string { return m.IFuncs[0].GlobalName }},
+		{"callee", func(n string) *ir.Module {
+			m := ir.NewModule()
+			g := m.NewFunc(n, types.Void)
+			f := m.NewFunc("caller.of", types.Void)
+			b := f.NewBlock("entry")
+			b.NewCall(g)
+			b.NewRet(nil)
+			return m
+		}, func(m *ir.Module) string {
+			if m.Funcs[1].Blocks[0].Insts[0].(*ir.InstCall).Callee != m.Funcs[0] {
+				return "\x00callee not bound to the function"
+			}
+			return m.Funcs[0].GlobalName
+		}},
+		{"blockaddress", func(n string) *ir.Module {
+			m := ir.NewModule()
+			f := m.NewFunc("f", types.Void)
+			e := f.NewBlock("entry")
+			t := f.NewBlock(n)
+			e.NewBr(t)
+			t.NewRet(nil)
+			m.NewGlobalDef("g", constant.NewBlockAddress(f, t))
+			return m
+		}, func(m *ir.Module) string {
+			ba, ok := m.Globals[0].Init.(*constant.BlockAddress)
+			if !ok || ba.Block != m.Funcs[0].Blocks[1] {
+				return "\x00blockaddress not bound to the block"
+			}
+			return m.Funcs[0].Blocks[1].LocalName
+		}},
+	}
+}
+
+// c11DIStringPositions: one position per string field of every specialised metadata node (found by
+// reflection, so a new field is covered without editing this file); fields whose benign probe value does
+// not survive on the unchanged tree are skipped by the probe in runC11 and counted.
+func c11DIStringPositions() []c11Pos {
+	var out []c11Pos
+	protos := []metadata.Definition{
+		&metadata.DIBasicType{}, &metadata.DICommonBlock{}, &metadata.DICompileUnit{}, &metadata.DICompositeType{},
+		&metadata.DIDerivedType{}, &metadata.DIEnumerator{}, &metadata.DIFile{}, &metadata.DIGlobalVariable{},
+		&metadata.DIImportedEntity{}, &metadata.DILabel{}, &metadata.DILocalVariable{}, &metadata.DIMacro{},
+		&metadata.DIModule{}, &metadata.DINamespace{}, &metadata.DIObjCProperty{}, &metadata.DIStringType{},
+		&metadata.DISubprogram{}, &metadata.DITemplateTypeParameter{}, &metadata.DITemplateValueParameter{},
+		&metadata.GenericDINode{},
+	}
+	for _, proto := range protos {
+		rt := reflect.TypeOf(proto).Elem()
+		for i := 0; i < rt.NumField(); i++ {
+			if rt.Field(i).Type.Kind() != reflect.String {
+				continue
+			}
+			rt, i := rt, i
+			out = append(out, c11Pos{"di." + rt.Name() + "." + rt.Field(i).Name, func(s string) *ir.Module {
+				m := ir.NewModule()
+				nv := reflect.New(rt)
+				nv.Elem().FieldByName("MetadataID").SetInt(-1)
+				nv.Elem().Field(i).SetString(s)
+				// required companions: node-valued fields are null, enums with an invalid zero value get a member
+				for k := 0; k < rt.NumField(); k++ {
+					fv := nv.Elem().Field(k)
+					switch {
+					case fv.Kind() == reflect.Interface && fv.IsNil() && reflect.TypeOf(metadata.Null).Implements(fv.Type()):
+						fv.Set(reflect.ValueOf(metadata.Null))
+					case fv.Type() == reflect.TypeOf(enum.DwarfLang(0)):
+						fv.Set(reflect.ValueOf(enum.DwarfLangC99))
+					case fv.Type() == reflect.TypeOf(enum.DwarfMacinfo(0)):
+						fv.Set(reflect.ValueOf(enum.DwarfMacinfoDefine))
+					}
+				}
+				m.MetadataDefs = append(m.MetadataDefs, nv.Interface().(metadata.Definition))
+				return m
+			}, func(m *ir.Module) string {
+				if len(m.MetadataDefs) != 1 {
+					return "\x00no metadata definition"
+				}
+				v := reflect.ValueOf(m.MetadataDefs[0])
+				if v.Elem().Type() != rt {
+					return "\x00node kind changed"
+				}
+				return v.Elem().Field(i).String()
+			}})
+		}
+	}
+	return out
 }
